@@ -406,6 +406,49 @@ def ob_configure_file_untouched():
     return h
 
 
+def ob_regen_filelist():
+    """Backend.get_regen_filelist (the inputs of `build build.ninja: REGENERATE_BUILD ...`, written unsorted, and regeninfo.dump): with 1-2 cross files and 1-2
+    native files the list is the same whatever order a set() would be iterated in - the iteration order of every set is an adversarial permutation here"""
+    def h():
+        from mesonbuild.backend import backends as BKm
+        names = [sym_str(1, 'f%d' % i, alphabet='abcd') + '.ini' for i in range(4)]
+        for i in range(4):
+            for j in range(i): assume(sym_not(names[i] == names[j]))
+        ncross = 1 + choose(2, 'cross files'); nnative = 1 + choose(2, 'native files')
+        be = object.__new__(BKm.Backend)
+        be.build_to_src = '../src'
+        be.build = types.SimpleNamespace(def_files=['meson.build', 'sub/meson.build'])
+        be.environment = types.SimpleNamespace(is_cross_build=lambda: True, coredata=types.SimpleNamespace(cross_files=names[:ncross], config_files=names[2:2 + nnative]))
+        be.check_clock_skew = lambda deps: None
+
+        def adversary(items):
+            left = list(items); out = []
+            while left: out.append(left.pop(choose(len(left), 'set order %d' % len(left))))
+            return out
+
+        class AdvSet(IOSet):
+            def __iter__(s_): return iter(adversary(list(s_.d)))
+        first = be.get_regen_filelist()
+        had = BKm.__dict__.get('set', None)
+        if concrete(): BKm.set = AdvSet
+        else:
+            from symx import instr
+            instr.SET_ORDER[0] = adversary
+        try:
+            second = be.get_regen_filelist()
+        finally:
+            if concrete():
+                if had is None: del BKm.set
+                else: BKm.set = had
+            else:
+                instr.SET_ORDER[0] = None
+        check(len(first) == len(second) == 3 + ncross + nnative, 'every regeneration dependency is listed once')
+        if len(first) == len(second):
+            for a, b in zip(first, second): check(eq(a, b), 'the regeneration dependency list does not depend on the iteration order of a set')
+        cover('done')
+    return h
+
+
 def obligations(tier):
     return [Obligation('replace-if-different', ob_replace(), dict(old='absent | 0-2 chars over a b newline', new='0-2 chars'), labels=('kept', 'replaced')),
             Obligation('configure-file-untouched', ob_configure_file_untouched(), dict(real='do_conf_file -> do_conf_str -> replace_if_different, twice', format='meson | cmake@', template='0-4 chars over @ K a newline', values='1 char each run, equal or not'),
@@ -414,6 +457,7 @@ def obligations(tier):
             Obligation('ninja-deps-order', ob_ninja_order(), dict(deps='4: a, ./a, one symbolic of 3 chars over a . /, one of 1 char', orderdeps='3 (1 symbolic)', insertion_order='every permutation of both'), labels=('done',), max_paths=2000000),
             Obligation('optionkey-order', ob_optionkey_order(), dict(keys='2: name 1 char over abc, subproject None | "" | a | b, machine host | build'), labels=('done',)),
             Obligation('env-hash-order', ob_env_hash(), dict(variables='2 set + 2 unset, distinct symbolic names', order='every permutation'), labels=('done',)),
+            Obligation('regen-filelist-order', ob_regen_filelist(), dict(real='Backend.get_regen_filelist', machine_files='1-2 cross + 1-2 native, distinct symbolic names', set_order='adversarial permutation'), labels=('done',)),
             Obligation('unique-list', ob_ordered(), dict(elements='1-4 symbolic'), labels=('done',)),
             Obligation('dependency-cache-machines', ob_dependency_cache_machines(), dict(real='coredata.CoreData.__init__, DependencyCache, OptionStore.set_option', build='native | cross', dependency_type='pkgconfig | cmake', changed_path='host | build machine'), labels=('native', 'cross')),
             Obligation('dependency-cache-history', ob_dependency_cache(3 if tier == 'quick' else 4), dict(steps=3 if tier == 'quick' else 4, operations='put (3 dependency types) | get | set pkg_config_path | set cmake_prefix_path', keys=2, paths='[] /A /B', persistence='optional pickle round trip before every step'), labels=('done',), max_paths=3000000)]
